@@ -107,6 +107,19 @@ pub fn advice_inputs(sc: &Value) -> AdviceInputs {
     if let Some(tree) = merkle_tree(sc) {
         a = a.with_merkle_store(processor::crypto::MerkleStore::from(&tree));
     }
+    // scenario field "advmap": entries [key word (word order: k0 first), values] of the advice map
+    if let Some(entries) = sc["advmap"].as_array() {
+        let mut m: Vec<(processor::crypto::RpoDigest, Vec<Felt>)> = vec![];
+        for e in entries {
+            let k = json_to_felts(&e[0]);
+            if k.len() != 4 {
+                continue;
+            }
+            let d = processor::crypto::RpoDigest::new([k[0], k[1], k[2], k[3]]);
+            m.push((d, json_to_felts(&e[1])));
+        }
+        a = a.with_map(m);
+    }
     a
 }
 
